@@ -42,12 +42,16 @@ type Plan struct {
 	// k > 0 has its deadline k fake hours after the start, and the step "cancel k" lets the (fake) clock run
 	// to that moment - which also ends every context with a smaller number.
 	Deadlines bool `json:"deadlines,omitempty"`
+	// CloseErrKind: what Close(err) is called with: 0 a plain error, 1 context.Canceled itself, 2 an error wrapping
+	// context.DeadlineExceeded
+	CloseErrKind int `json:"close_err_kind,omitempty"`
 }
 
 func genPlan(t *rapid.T) Plan {
 	p := Plan{Buf: rapid.SampledFrom([]int{0, 1, 2, 5}).Draw(t, "buf"), Senders: rapid.IntRange(1, 3).Draw(t, "senders")}
 	racy := rapid.IntRange(0, 2).Draw(t, "racy") > 0
 	p.Deadlines = rapid.IntRange(0, 2).Draw(t, "deadlines") == 0
+	p.CloseErrKind = rapid.SampledFrom([]int{0, 0, 1, 2}).Draw(t, "closeerrkind")
 	n := rapid.IntRange(1, 24).Draw(t, "n")
 	nctx := 0
 	for i := 0; i < n; i++ {
@@ -189,6 +193,12 @@ func script(p Plan, out *vk.Outcome) error {
 	w := &world{t0: time.Now(), p: p, ctxs: map[int]context.Context{}, cancels: map[int]context.CancelFunc{}, cancelAt: map[int]int64{}}
 	sender, receiver := stream.Pipe[int](p.Buf)
 	closeErr := sk.NewSentinel("close-error")
+	switch p.CloseErrKind { // the error a producer closes with is often just what it got itself: ctx.Err()
+	case 1:
+		closeErr = context.Canceled
+	case 2:
+		closeErr = fmt.Errorf("producer gave up: %w", context.DeadlineExceeded)
+	}
 	nActors := p.Senders + 2 // senders, closer, receiver
 	inbox := make([]chan *opRec, nActors)
 	var wg sync.WaitGroup
@@ -523,7 +533,11 @@ func script(p Plan, out *vk.Outcome) error {
 				continue
 			}
 			// validity of a failing Next
+			// (the close error may itself be a context error; it is the pipe's once Close(err) has been called)
+			isClose := closeCall != 0 && closeIsErr && r.ret >= closeCall && errors.Is(r.err, closeErr)
+			ownCtxEnded := r.ctx != 0 && !r.ctxLive
 			switch {
+			case isClose:
 			case isCtxErr(r.err):
 				if r.ctx == 0 || r.ctxLive {
 					return vk.Violf("invalid-result", "Next with a live context returned %v", r.err)
@@ -539,7 +553,7 @@ func script(p Plan, out *vk.Outcome) error {
 			default:
 				return vk.Violf("invalid-result", "Next returned unexpected error %v", r.err)
 			}
-			if r.err == stream.End || errors.Is(r.err, closeErr) {
+			if r.err == stream.End || (errors.Is(r.err, closeErr) && !(isCtxErr(r.err) && ownCtxEnded)) {
 				if firstEnd == nil {
 					firstEnd, endResult = r, r.err
 				}
@@ -561,6 +575,7 @@ func script(p Plan, out *vk.Outcome) error {
 				continue
 			}
 			switch {
+			case closeCall != 0 && closeIsErr && r.ret >= closeCall && errors.Is(r.err, closeErr):
 			case isCtxErr(r.err):
 				if r.ctx == 0 || r.ctxLive {
 					return vk.Violf("invalid-result", "%s with a live context returned %v", r.op, r.err)
@@ -851,4 +866,74 @@ func runParked(p ParkedPlan) (vk.Outcome, error) {
 
 func TestPipeParked(t *testing.T) {
 	vk.Run(t, suite, "pipe-parked", 40, genParked, runParked)
+}
+
+// ---------------------------------------------------------------- the sender half becomes garbage before the receiver is done
+//
+// A producer fills the pipe, closes its sender and returns; only the receiver is passed on. Whatever the
+// runtime does with the unreachable sender half (garbage collection, finalizers) the receiver still gets
+// the accepted values and then, for good, what the sender was closed with.
+
+type GCPipePlan struct {
+	Buf      int  `json:"buf"`
+	N        int  `json:"n"`
+	CloseErr bool `json:"close_err"`
+	GCs      int  `json:"gcs"`
+}
+
+func genGCPipe(t *rapid.T) GCPipePlan {
+	buf := rapid.SampledFrom([]int{1, 2, 8}).Draw(t, "buf")
+	return GCPipePlan{Buf: buf, N: rapid.IntRange(0, buf).Draw(t, "n"), CloseErr: rapid.Bool().Draw(t, "closeerr"), GCs: rapid.IntRange(1, 3).Draw(t, "gcs")}
+}
+
+//go:noinline
+func fillAndClose(p GCPipePlan, closeErr error) stream.Stream[int] {
+	sender, receiver := stream.Pipe[int](p.Buf)
+	for i := 0; i < p.N; i++ {
+		if ok, err := sender.TrySend(context.Background(), i); !ok || err != nil {
+			panic(fmt.Sprintf("TrySend #%d into a pipe with room returned (%v, %v)", i, ok, err))
+		}
+	}
+	if p.CloseErr {
+		sender.Close(closeErr)
+	} else {
+		sender.Close(nil)
+	}
+	return receiver
+}
+
+func runGCPipe(p GCPipePlan) (vk.Outcome, error) {
+	var out vk.Outcome
+	closeErr := sk.NewSentinel("close-error")
+	receiver := fillAndClose(p, closeErr)
+	collect := func() {
+		for i := 0; i < p.GCs; i++ {
+			runtime.GC()
+			time.Sleep(time.Millisecond) // finalizers run on a goroutine of their own
+		}
+	}
+	collect()
+	var want error = stream.End
+	if p.CloseErr {
+		want = closeErr
+	}
+	for i := 0; i < p.N; i++ {
+		v, err := receiver.Next(context.Background())
+		if err != nil || v != i {
+			return out, vk.Violf("lost-value", "after the sender half had become garbage: Next #%d returned (%d, %v), want the accepted value %d", i, v, err, i)
+		}
+	}
+	for k := 0; k < 3; k++ {
+		if _, err := receiver.Next(context.Background()); err != want {
+			return out, vk.Violf("end-not-sticky", "after the sender half had become garbage (closed with %v): Next #%d past the values returned %v", want, k, err)
+		}
+		collect()
+	}
+	receiver.Close()
+	out.NonTrivial = p.N > 0
+	return out, nil
+}
+
+func TestPipeSenderCollected(t *testing.T) {
+	vk.Run(t, suite, "pipe-gc", 60, genGCPipe, runGCPipe)
 }
